@@ -6,12 +6,14 @@ import (
 
 	"github.com/sboehler/knut/lib/common/compare"
 	"github.com/sboehler/knut/lib/common/date"
+	"github.com/sboehler/knut/lib/common/dict"
 	"github.com/sboehler/knut/lib/common/multimap"
 	"github.com/sboehler/knut/lib/common/set"
 	"github.com/sboehler/knut/lib/common/table"
 	"github.com/sboehler/knut/lib/journal"
 	"github.com/sboehler/knut/lib/journal/performance"
 	"github.com/sboehler/knut/lib/model/account"
+	"github.com/sboehler/knut/lib/model/commodity"
 )
 
 type Query struct {
@@ -27,11 +29,15 @@ func (q Query) Execute(j *journal.Builder, r *Report) *journal.Processor {
 			if !days.Has(d) {
 				return nil
 			}
+			// Floating point sums depend on the order of the terms: visit the
+			// commodities in name order, not in map iteration order.
+			commodities := dict.SortedKeys(d.Performance.V1, commodity.Compare)
 			var total float64
-			for _, v := range d.Performance.V1 {
-				total += v
+			for _, com := range commodities {
+				total += d.Performance.V1[com]
 			}
-			for com, v := range d.Performance.V1 {
+			for _, com := range commodities {
+				v := d.Performance.V1[com]
 				ss := q.Universe.Locate(com)
 				level, suffix, ok := q.Mapping.Level(strings.Join(ss, ":"))
 				if ok && level < len(ss)-suffix {
@@ -83,8 +89,8 @@ func (r *Report) PropagateWeights() {
 		if n.Value.Weights == nil {
 			n.Value.Weights = make(map[time.Time]float64)
 		}
-		for _, ch := range n.Children {
-			for date, w := range ch.Value.Weights {
+		for _, segment := range dict.SortedKeys(n.Children, compare.Ordered[string]) {
+			for date, w := range n.Children[segment].Value.Weights {
 				n.Value.Weights[date] += w
 			}
 		}
@@ -94,13 +100,16 @@ func (r *Report) PropagateWeights() {
 func (r *Report) SortWeighted() {
 	r.weights.PostOrder(func(n *Node) {
 		var total float64
-		for _, w := range n.Value.Weights {
-			total += w
+		for _, date := range dict.SortedKeys(n.Value.Weights, compare.Time) {
+			total += n.Value.Weights[date]
 		}
 		n.Value.Weight = -total
 	})
 	r.weights.Sort(func(n1, n2 *Node) compare.Order {
-		return compare.Ordered(n1.Value.Weight, n2.Value.Weight)
+		if o := compare.Ordered(n1.Value.Weight, n2.Value.Weight); o != compare.Equal {
+			return o
+		}
+		return multimap.SortAlpha(n1, n2)
 	})
 }
 
